@@ -37,6 +37,20 @@ def bad (cmds impl : List String) (kind : String) : Bool := (judge cmds impl).an
 #guard bad ["rx m{i16:i1} 285b31363a312c5d29"] ["lookup-miss i16 bucket=6 hash=1 size=16", "rest m{i16:i1}"] "mapping-entry-not-found-by-its-key"
 #guard bad ["ro 0"] ["ro 1", "lookup-miss s61 bucket=6 hash=1 size=16", "vars a[i0,i0,m{s61:i1},i0,i0,i0,i0]"] "mapping-entry-not-found-by-its-key s61"
 
+/-! a file-size limit in the middle of a block; a rename that fails for real -/
+#guard ok ["wf 00", "cl 0"] ["cl n=47", "cl 0 ret=0 old tmp=0", "ck 0 killed old tmp=1", "cl 46 ret=0 old tmp=0", "ck 46 killed old tmp=1", "cl 47 ret=1 new tmp=0", "ck 47 ret=1 new tmp=0"]
+#guard bad ["wf 00", "cl 0"] ["cl n=47", "cl 23 ret=0 other tmp=0"] "atomic-save-file-other at-size-limit"
+#guard bad ["wf 00", "cl 0"] ["cl n=47", "ck 23 killed other tmp=1"] "atomic-save-file-other killed-at-size-limit"
+#guard bad ["wf 00", "cl 0"] ["cl n=47", "cl 23 ret=1 old tmp=0"] "save-reported-success-beyond-size-limit"
+#guard bad ["wf 00", "cl 0"] ["cl n=47", "cl 23 ret=0 old tmp=1"] "tmp-left-behind at-size-limit"
+#guard bad ["wf 00", "cl 0"] ["cl n=47", "cl 47 ret=0 old tmp=0"] "save-failed-within-size-limit"
+#guard bad ["cl 0"] ["cl n=47", "cl 23 ret=0 none tmp=0", "ck 23 childcrash"] "memory childcrash"
+#guard ok ["cl 0"] ["cl n=47", "cl 23 ret=0 none tmp=0"]
+#guard ok ["wf 00", "cl 0", "cl 1"] ["cl n=47", "cl 46 ret=0 old tmp=0", "cl 47 ret=1 new tmp=0", "cl n=20", "cl 19 ret=0 old tmp=0", "cl 20 ret=1 new tmp=0"]
+#guard ok ["sond 61 0 612e6f"] ["so 0 made=1 tmp=612e6f2e746d70 left=0"]
+#guard bad ["sond 61 0 612e6f"] ["so 0 made=1 tmp=612e6f2e746d70 left=1"] "tmp-left-behind after-rename-failure"
+#guard bad ["sond 61 0 612e6f"] ["so 1 made=1 tmp=612e6f2e746d70 left=0"] "save-reported-success-although-rename-failed"
+
 /-! memory -/
 #guard bad ["rv 22"] ["sanitizer ERROR: AddressSanitizer: heap-buffer-overflow"] "memory"
 #guard bad ["rv 22"] ["crash signal 11"] "memory"
